@@ -118,6 +118,7 @@ class SccLine:
       self.time_code.add_frames()
 
       if scc_word.value == 0x0000:
+        context.previous_word = None
         continue
 
       if scc_word.byte_1 < 0x20:
@@ -129,6 +130,7 @@ class SccLine:
           if context.current_channel is not caption_channel:
             LOGGER.warning("Skip Caption Channel 2 content")
           context.current_channel = caption_channel
+          context.previous_word = None
           continue
 
         context.current_channel = caption_channel
@@ -175,6 +177,7 @@ class SccLine:
       else:
         if context.current_channel is not SccChannel.CHANNEL_1:
           # LOGGER.warning("Skip Caption Channel 2 code")
+          context.previous_word = None
           continue
 
         text = scc_word.to_text()
